@@ -1205,6 +1205,10 @@ class Interp:
                 tr = base_type_name(cal.trait) if cal.trait else None
                 if tr in ("Fn", "FnMut", "FnOnce") and isinstance(rt, str) and rt.startswith("{closure@"):
                     return self.call_closure(args[0], args[1])
+                if tr == "PartialEq" and cal.method == "ne" and self.P.find_def(rt, "PartialEq", "eq"):
+                    # provided method of PartialEq: !eq
+                    r = self.call_fn(rt, "PartialEq", "eq", args)
+                    return self.unop("Not", r)
                 if tr == "PartialOrd" and cal.method in ("lt", "le", "gt", "ge") and self.P.find_def(rt, "PartialOrd", "partial_cmp"):
                     # provided methods of PartialOrd, defined through the type's own partial_cmp (as in core::cmp)
                     r = self.call_fn(rt, "PartialOrd", "partial_cmp", args)
